@@ -6,11 +6,122 @@ use crate::refmodel::scope::{linear, POSITIONS};
 use espada::evaluator::{FlopExhaustiveEvaluator, Showdown};
 use espada::hand_range::HandRange;
 use espada::verif_hooks::{self, Event};
-use std::cell::RefCell;
+use std::cell::{Cell, RefCell};
 use std::collections::HashMap;
 use std::rc::Rc;
 
 pub const BOUND_PANIC: &str = "VERIF-BOUND-EXCEEDED";
+
+// ---------------------------------------------------------------- non-termination guard
+//
+// Two monitors over the `on_deal` events make an enumerator that stops advancing a recorded violation instead of a
+// watchdog timeout (or an out-of-memory kill, when its showdowns are being collected):
+//
+// * cycle detection (Brent) over the hooked odometer state (turn, river, indexes). The enumerator is deterministic
+//   in that state, so a state considered twice by one evaluator is an infinite loop, and an enumeration that never
+//   repeats a state ends because the state space is finite. No assumption on the order of enumeration or on scopes.
+//   Events carry no evaluator identity, so the driver says which evaluator it is about to step (`stepping(label)`)
+//   wherever several are alive on one thread; everywhere else label 0 is used and every evaluator the harness builds
+//   (`evaluator()`, or `allow()` next to a direct construction) restarts the detector of the current label.
+// * a budget as a backstop for state the hook does not show: a correct enumeration considers exactly
+//   positions-in-scope x prod(len) deals, so every evaluator built adds 1176 x prod(len) + 16 to its thread's budget
+//   and every considered deal takes one away. It only over-approximates (scoped and abandoned evaluators leave their
+//   allowance behind; `reset_budget()` between cases keeps it tight), so it cannot fire on a correct enumerator.
+//
+// Every sink calls `guard_tick` for every considered deal; a thread with no monitor installed gets a sink that does
+// nothing else. Both monitors panic with `BOUND_PANIC` inside `next()`.
+
+thread_local! {
+    static BUDGET: Cell<u64> = const { Cell::new(0) };
+    static GUARD_ON: Cell<bool> = const { Cell::new(false) };
+    static LABEL: Cell<usize> = const { Cell::new(0) };
+    static CYCLES: RefCell<Vec<Option<Cycle>>> = const { RefCell::new(Vec::new()) };
+}
+
+struct Cycle {
+    tortoise: (usize, usize, Vec<usize>),
+    steps: u64,
+    next_snapshot: u64,
+}
+
+/// To be called where an evaluator over `ranges` is built: adds its allowance to this thread's budget and restarts
+/// the cycle detector of the current label.
+pub fn allow(ranges: &Vec<HandRange>) {
+    let mut product: u128 = 1;
+    for r in ranges {
+        product = product.saturating_mul(r.card_pairs().len() as u128);
+    }
+    let add = product.saturating_mul(1176).saturating_add(16);
+    let add = if add > u64::MAX as u128 { u64::MAX } else { add as u64 };
+    BUDGET.with(|b| b.set(b.get().saturating_add(add)));
+    GUARD_ON.with(|b| b.set(true));
+    let label = LABEL.with(|l| l.get());
+    CYCLES.with(|c| {
+        let mut c = c.borrow_mut();
+        if c.len() <= label {
+            c.resize_with(label + 1, || None);
+        }
+        c[label] = Some(Cycle { tortoise: (0, 0, Vec::new()), steps: 0, next_snapshot: 1 });
+    });
+    ensure_guard_sink();
+}
+
+/// Forgets what earlier evaluators on this thread left unused (call between cases, when none is alive).
+pub fn reset_budget() {
+    BUDGET.with(|b| b.set(0));
+}
+
+/// The driver is about to build or step the evaluator it calls `label` (several live evaluators on one thread).
+#[inline]
+pub fn stepping(label: usize) {
+    LABEL.with(|l| l.set(label));
+}
+
+fn ensure_guard_sink() {
+    if !verif_hooks::enabled() {
+        verif_hooks::set_sink(Some(Box::new(|e: &Event| {
+            if let Event::Deal { turn_index, river_index, player_indexes, .. } = e {
+                guard_tick(*turn_index, *river_index, player_indexes);
+            }
+        })));
+    }
+}
+
+/// To be called by every sink for every considered deal.
+#[inline]
+pub fn guard_tick(turn: usize, river: usize, indexes: &[usize]) {
+    if !GUARD_ON.with(|b| b.get()) {
+        return;
+    }
+    let left = BUDGET.with(|b| b.get());
+    if left == 0 {
+        panic!("{}: more deals considered than 1176 x prod(len) + 16 for every evaluator built on this thread; the enumeration does not advance (at turn {} river {} indexes {:?})", BOUND_PANIC, turn, river, indexes);
+    }
+    if left != u64::MAX {
+        BUDGET.with(|b| b.set(left - 1));
+    }
+    let label = LABEL.with(|l| l.get());
+    let repeated = CYCLES.with(|c| {
+        let mut c = c.borrow_mut();
+        if let Some(Some(c)) = c.get_mut(label) {
+            if c.steps > 0 && c.tortoise.0 == turn && c.tortoise.1 == river && c.tortoise.2.as_slice() == indexes {
+                return true;
+            }
+            c.steps += 1;
+            if c.steps == c.next_snapshot {
+                c.tortoise.0 = turn;
+                c.tortoise.1 = river;
+                c.tortoise.2.clear();
+                c.tortoise.2.extend_from_slice(indexes);
+                c.next_snapshot *= 2;
+            }
+        }
+        false
+    });
+    if repeated {
+        panic!("{}: the odometer state (turn {} river {} indexes {:?}) is considered a second time; the enumeration does not advance", BOUND_PANIC, turn, river, indexes);
+    }
+}
 
 /// What the hook sink saw while one evaluator was driven.
 #[derive(Clone, Debug, Default)]
@@ -55,7 +166,8 @@ pub fn install_stats_sink(bound: u64) -> Rc<RefCell<HookStats>> {
                     st.table_lookups_rainbow += 1;
                 }
             }
-            Event::Deal { player_indexes, materialized, depth, stack_addr, .. } => {
+            Event::Deal { turn_index, river_index, player_indexes, materialized, depth, stack_addr } => {
+                guard_tick(*turn_index, *river_index, player_indexes);
                 st.deals_considered += 1;
                 st.since_last_yield += 1;
                 if st.since_last_yield > st.max_blocked_run {
@@ -91,6 +203,9 @@ pub fn install_stats_sink(bound: u64) -> Rc<RefCell<HookStats>> {
 
 pub fn remove_sink() {
     verif_hooks::set_sink(None);
+    if GUARD_ON.with(|b| b.get()) {
+        ensure_guard_sink();
+    }
 }
 
 pub fn board_of(flop: &[u8; 3]) -> [Option<espada::card::Card>; 5] {
@@ -104,6 +219,7 @@ pub fn hand_ranges(cfg: &Config) -> Vec<HandRange> {
 pub type Scope = ((u8, u8), (u8, u8));
 
 pub fn evaluator(cfg: &Config, ranges: &Vec<HandRange>, scope: Option<Scope>) -> FlopExhaustiveEvaluator {
+    allow(ranges);
     let mut e = FlopExhaustiveEvaluator::new(&board_of(&cfg.flop), ranges);
     if let Some((from, to)) = scope {
         e.scope(from.0, from.1, to.0, to.1);
